@@ -149,6 +149,64 @@ def scripted_frozen_admin(g):
     g.tags.add("frozen-admin-scenario")
 
 
+def scripted_paused_electorate(g):
+    """the electorate changes while a proposal is paused: a low-priority proposal about an appchain is open, one of its
+    electors is frozen (before or after the pause), a higher-priority proposal pauses it, the elector is activated again,
+    the higher-priority proposal is rejected (the paused one is re-opened) and the re-opened proposal is voted on with one
+    early rejection: it may be rejected by the tally only if the electors available NOW cannot approve it any more"""
+    r = g.r
+    c = r.choice(["c1", "c2", "c4"])
+    x = r.choice(["adm1", "adm2", "adm3"])
+    others = [a for a in ADMINS if a != x]
+
+    def roles():
+        for a in ADMINS:
+            g.ops.append(f"q obj role @{a}")
+
+    def role_op(call, kind):
+        g.submit(others[0], f"role {call} s:@{x} s:reason", kind, "role", "@" + x)
+        ref = g.props[-1][0]
+        for v in others:
+            roles()
+            g.ops.append(f"q prop {ref}")
+            g.ops.append(f"block bvm {v} gov Vote s:{ref} s:approve s:r")
+        g.ops.append(f"q prop {ref}")
+        roles()
+        g.ops.append(f"q prop {p1}")
+
+    g.submit(r.choice(others), f"appchain FreezeAppchain s:{c} s:reason", "appchain-freeze", "appchain", c)
+    p1 = g.props[-1][0]
+    early = r.random() < 0.6
+    if early:
+        role_op("FreezeRole", "role-freeze")
+    g.submit(f"ca{c[1]}", f"appchain LogoutAppchain s:{c} s:reason", "appchain-logout", "appchain", c)
+    p2 = g.props[-1][0]
+    g.ops.append(f"q prop {p1}")
+    if not early:
+        role_op("FreezeRole", "role-freeze")
+    role_op("ActivateRole", "role-activate")
+    for v in ["adm0"] + [a for a in others if a != "adm0"][:2]:
+        roles()
+        g.ops.append(f"q prop {p2}")
+        g.ops.append(f"block bvm {v} gov Vote s:{p2} s:reject s:r")
+        g.ops.append(f"q prop {p2}")
+        g.ops.append(f"q prop {p1}")
+    g.ops.append(f"q obj appchain {c}")
+    # the re-opened proposal: one approval, one rejection, then the rest approve
+    order = ["adm0"] + [a for a in ADMINS if a != "adm0" and a != x] + [x]
+    ballots = ["approve", "reject", "approve", "approve"]
+    if r.random() < 0.3:
+        r.shuffle(ballots)
+    for v, b in zip(order, ballots):
+        roles()
+        g.ops.append(f"q prop {p1}")
+        g.ops.append(f"q obj appchain {c}")
+        g.ops.append(f"block bvm {v} gov Vote s:{p1} s:{b} s:r")
+        g.ops.append(f"q prop {p1}")
+        g.ops.append(f"q obj appchain {c}")
+    g.tags.add("paused-electorate-scenario")
+
+
 def scripted_priority(g):
     """concurrent proposals on one object with different priorities: a freeze (priority 2) is proposed, then a logout
     (priority 3) of the same object pauses it; the paused proposal is withdrawn / voted on / left alone; the logout is
@@ -214,6 +272,8 @@ def gen_c15(rng, n, tier):
             scripted_priority(g)
         elif k0 < 0.35:
             scripted_frozen_admin(g)
+        elif k0 < 0.47:
+            scripted_paused_electorate(g)
         g.propose()
         for _ in range(r.randint(6, 22)):
             k = r.random()
@@ -268,6 +328,7 @@ def mon_c15(h, obs):
     last = {}          # ref -> parsed proposal (latest observation)
     final = {}         # ref -> raw line once concluded
     role = {}          # account -> role status (latest observation)
+    role_fresh = set() # accounts whose role status was read since the last block that can change a role
     vsteps = []        # (model input line, expected answer, description)
     steps = list(zip(h.ops, obs))
     i = 0
@@ -308,6 +369,16 @@ def mon_c15(h, obs):
                         reach = expr_holds(p["expr"], max_approve(p["avail"], p["r"]), p["r"], p["init"])
                         if hold or reach:
                             hits.append(Hit("C15/rejected-while-reachable", f"{ref} rejected with a={p['a']} r={p['r']} t={p['init']} avail={p['avail']} under {p['expr']}", detail=op))
+                        else:
+                            # ... against the CURRENT number of available electors, read from the role contract (model-free): only
+                            # when every elector's role status was read after the last operation that can change a role
+                            els = [e.split(":")[0] for e in p["electorate"]]
+                            if els and all(e in role_fresh for e in els):
+                                cur = sum(1 for e in els if role.get(e) in ROLE_AVAILABLE)
+                                if cur != p["avail"] and expr_holds(p["expr"], max_approve(cur, p["r"]), p["r"], p["init"]):
+                                    hits.append(Hit("C15/rejected-while-reachable/current-electorate",
+                                                    f"{ref} rejected by the tally with a={p['a']} r={p['r']} t={p['init']} under {p['expr']}: the proposal records {p['avail']} available "
+                                                    f"electors, but {cur} of its electors {els} are available administrators now and could still approve it", detail=op))
                     if p["special"] == 1 and p["super"] == 0 and p["end"] == "end_of_normal_voting":
                         hits.append(Hit("C15/special-concluded-without-super-admin", f"{ref}: {p['raw'][:120]}", detail=op))
                 last[ref] = p
@@ -315,11 +386,14 @@ def mon_c15(h, obs):
             # the role contract's answer to IsAnyAvailableAdmin(voter, governanceAdmin): an available role of that type
             m2 = re.search(r"status=(\S+) type=(\S+)", o)
             role[ws[3].lstrip("@")] = (m2.group(1) if m2 and m2.group(2) == "governanceAdmin" else "none")
+            role_fresh.add(ws[3].lstrip("@"))
         elif ws[0] == "block" and " gov Vote " in op and " | " not in op:
             m = mon_exec.BLK.match(o)
             t = op.split()
             voter, ref, ballot = t[2], t[5][2:], t[6][2:]
             pre = last.get(ref)
+            if pre is None or "role" in str(pre.get("typ", "role")).lower():
+                role_fresh.clear()       # the conclusion of a proposal about a role changes role statuses
             rc = m.group(2).split()[0] if m and m.group(2) else ""
             ok = rc.startswith("S:")
             # the observation right after
@@ -352,6 +426,9 @@ def mon_c15(h, obs):
                     code = rc.split(":")[1] if ":" in rc else rc
                     exp = "err " + code
                 vsteps.append((line, exp, op))
+        if ws[0] in ("block", "restart") and not (" gov Vote " in op and " | " not in op):
+            if ws[0] == "restart" or " role " in op or " gov " in op or " | " in op:
+                role_fresh.clear()
         i += 1
     tsteps, thits = table_steps(h, obs)
     hits.extend(thits)
